@@ -133,6 +133,10 @@ impl BBSplusPoKSignature {
 
         let challenge = m_cap.pop().ok_or(Error::InvalidProofOfKnowledgeSignature)?; //at least the challenge should be present (even if all attributes are disclosed)
 
+        if bool::from(Abar.is_identity()) || bool::from(Bbar.is_identity()) || bool::from(D.is_identity()) {
+            return Err(Error::InvalidProofOfKnowledgeSignature);
+        }
+
         Ok(Self {
             Abar,
             Bbar,
@@ -805,6 +809,13 @@ fn core_proof_verify<CS>(
 where
     CS: BbsCiphersuite,
 {
+    if bool::from(proof.Abar.is_identity())
+        || bool::from(proof.Bbar.is_identity())
+        || bool::from(proof.D.is_identity())
+    {
+        return Err(Error::PoKSVerificationError("identity point".to_owned()));
+    }
+
     let init_res = proof_verify_init::<CS>(
         pk,
         proof,
